@@ -41,11 +41,31 @@ mutual
         HasFieldsU p (.cons (.mapped tf.name [tf.name] [false] false b cv z) rest) sfs ((tf, tty) :: tfs)
 end
 
+/-- the constructor call of `default FUNC`: a custom function interpreted as a constructor, returning the target type or
+(with `toPointer`) the non-pointer type the target points to -/
+def HasCtor (p : Program) (ctor : Conv) (toPointer : Bool) (t : Ty) : Prop :=
+  ∃ (i : Nat) (args : List CallArg) (retErr : Bool) (w : Wrap) (d : FnDef),
+    ctor = .call (.custom i) args retErr w ∧ p.conv.customs[i]? = some d ∧ p.sem.isCtor d.name = true ∧
+    (if toPointer then ∃ te, under p.conv.env t = .ptr te ∧ d.target = te ∧ isPtr p.conv.env d.target = none
+     else d.target = t)
+
+/-- the body of a conversion method: structural, possibly starting from a default constructor -/
+inductive ConvertOKU (p : Program) : Conv → Ty → Ty → Prop
+  | plain {c s t} : HasTyU p c s t → ConvertOKU p c s t
+  | withCtor {ctor tp rest s t} : HasCtor p ctor tp t → (∀ cl a r w, rest ≠ .call cl a r w) → HasTyU p rest s t →
+      ConvertOKU p (.withCtor ctor tp rest) s t
+  | updPtrPtr {ctor tp inner s t se te} : HasCtor p ctor tp t → under p.conv.env s = .ptr se → under p.conv.env t = .ptr te →
+      HasTyU p inner se te → ConvertOKU p (.ctorUpdate ctor tp true true inner) s t
+  | updSrcPtr {ctor tp inner s t se} : HasCtor p ctor tp t → under p.conv.env s = .ptr se → (∀ e, under p.conv.env t ≠ .ptr e) →
+      HasTyU p inner se t → ConvertOKU p (.ctorUpdate ctor tp true false inner) s t
+  | updTgtPtr {ctor tp inner s t te} : HasCtor p ctor tp t → (∀ e, under p.conv.env s ≠ .ptr e) → under p.conv.env t = .ptr te →
+      HasTyU p inner s te → ConvertOKU p (.ctorUpdate ctor tp false true inner) s t
+
 /-- the body of a method fits the method's signature: a conversion source → target, or an update of the struct the
 target points to from the source struct (or the struct the source points to) -/
 def BodyOKU (p : Program) (gm : GenMethod) : Prop :=
   match gm.body with
-  | some (.convert c) => HasTyU p c gm.source gm.target
+  | some (.convert c) => ConvertOKU p c gm.source gm.target
   | some (.update srcIsPtr c) =>
     ∃ te, under p.conv.env gm.target = .ptr te ∧
       (if srcIsPtr then ∃ se, under p.conv.env gm.source = .ptr se ∧ HasTyU p c se te else HasTyU p c gm.source te)
@@ -113,6 +133,47 @@ theorem oldOK_zeroVal (env : TEnv) : ∀ (k : Nat) (t : Ty), OldOK env (zeroVal 
       refine .struct hu (fun name x f ty hl hf => ?_)
       rw [zeroFields_lookup env k fs.toList name x f ty hl hf]
       exact ih ty
+    | _ => exact .nonStruct (fun fs hh => by rw [hu] at hh; cases hh)
+
+theorem ctorFields_lookup (env : TEnv) (k : Nat) (tfs : List (FieldInfo × Ty)) (name : S) (x : Val) (f : FieldInfo) (ty : Ty)
+    (hl : (ctorVal.ctorFields env k tfs).lookup name = some x)
+    (hf : tfs.find? (fun (y : FieldInfo × Ty) => y.1.name == name) = some (f, ty)) :
+    (∃ kk, under env ty = .basic kk ∧ x = ctorVal env k ty) ∨ ((∀ kk, under env ty ≠ .basic kk) ∧ x = zeroVal env k ty) := by
+  induction tfs with
+  | nil => simp at hf
+  | cons a tfs ih =>
+    obtain ⟨g, gty⟩ := a
+    unfold ctorVal.ctorFields at hl
+    by_cases hn : g.name = name
+    · subst hn
+      simp [List.lookup] at hl
+      simp [List.find?] at hf
+      obtain ⟨_, rfl⟩ := hf
+      split at hl
+      · rename_i kk hk
+        exact .inl ⟨kk, hk, hl.symm⟩
+      · rename_i hne
+        exact .inr ⟨fun kk hk => hne kk hk, hl.symm⟩
+    · have h1 : (name == g.name) = false := by simpa using (fun hh => hn hh.symm)
+      have h2 : (g.name == name) = false := by simpa using hn
+      simp only [List.lookup, h1] at hl
+      simp only [List.find?, h2] at hf
+      exact ih hl hf
+
+/-- what a constructor returns is an admissible previous value -/
+theorem oldOK_ctorVal (env : TEnv) (k : Nat) (t : Ty) : OldOK env (ctorVal env k t) t := by
+  cases k with
+  | zero => unfold ctorVal; exact .nil
+  | succ k =>
+    cases hu : under env t with
+    | struct fs =>
+      have : ctorVal env (k + 1) t = .struct (ctorVal.ctorFields env k fs.toList) := by
+        unfold ctorVal; simp [hu]
+      rw [this]
+      refine .struct hu (fun name x f ty hl hf => ?_)
+      rcases ctorFields_lookup env k fs.toList name x f ty hl hf with ⟨kk, hk, _⟩ | ⟨_, hx⟩
+      · exact .nonStruct (fun fs' hh => by rw [hk] at hh; cases hh)
+      · rw [hx]; exact oldOK_zeroVal env k ty
     | _ => exact .nonStruct (fun fs hh => by rw [hu] at hh; cases hh)
 
 /-! a convenient way to show that a concrete struct of basic values is well-typed (non-vacuity examples) -/
